@@ -11,7 +11,7 @@ not decided (value arithmetic).
 import ast
 import itertools
 
-from ..astutil import call_simple_name, dotted, guard_chain, names_in, returns_of, short
+from ..astutil import call_simple_name, dotted, guard_chain, names_in, pm, pmall, returns_of, short
 from ..loader import AnalysisError, FunctionInfo, body_walk, norm, walk_no_nested
 from ..report import key
 from ..tableeval import Evaluator
@@ -242,7 +242,9 @@ def rule_truncate(ctx):
               expected="STIXdatetime(ts, precision=precision, precision_constraint=precision_constraint)", found=[short(r) for r in rets])
     sd = prog.cls(U + "::STIXdatetime").methods.get("__new__")
     t = norm(sd.node) if sd else ""
-    run.check("self.precision = precision" in t and "self.precision_constraint = precision_constraint" in t, R,
+    run.check(pmall(t, "$p = to_enum(kwargs.pop('precision', Precision.ANY), Precision)",
+                    "$c = to_enum(kwargs.pop('precision_constraint', PrecisionConstraint.EXACT), PrecisionConstraint)",
+                    "$s.precision = $p", "$s.precision_constraint = $c", "return $s") is not None, R,
               key(rel, "STIXdatetime.__new__", "stores-metadata"), "STIXdatetime does not store the metadata", file=rel,
               line=sd.node.lineno if sd else 0, function="STIXdatetime.__new__", expected="self.precision / self.precision_constraint",
               found="absent")
@@ -284,8 +286,8 @@ def rule_utc(ctx):
                   found=[short(b) for b in bad])
     pd = prog.func(U + "::parse_into_datetime")
     t = norm(pd.node)
-    ok = "if parsed.tzinfo" in t and "parsed.astimezone(pytz.utc)" in t and "pytz.utc.localize(parsed)" in t and \
-        "dt.datetime.combine(value, dt.time(0, 0, tzinfo=pytz.utc))" in t
+    ok = pmall(t, "$p = dt.datetime.strptime(", "if $p.tzinfo", "$p.astimezone(pytz.utc)", "pytz.utc.localize($p)") is not None and \
+        "dt.datetime.combine(%s, dt.time(0, 0, tzinfo=pytz.utc))" % pd.params[0] in t
     run.check(ok, R, key(rel, pd.qualname, "parsed-as-utc"), "parsed text / dates are not interpreted as UTC", file=rel,
               line=pd.node.lineno, function=pd.qualname, expected="aware -> astimezone(utc); naive -> localize(utc); date -> midnight UTC",
               found="changed")
